@@ -2,7 +2,8 @@
    meas_rot (the rotation gates per Pauli) comes from QPG.measrot, regenerated from /repo. *)
 From Coq Require Import ZArith NArith List Bool Permutation.
 From QP Require Import Cx Apply Gates.
-From QPM Require Import Pauli CompBasis Measure Grouping Reconstruct BitwiseGrouping.
+From QP Require Import Asum.
+From QPM Require Import Pauli CompBasis Measure Grouping Reconstruct BitwiseGrouping Expect.
 From QPG Require Import measrot.
 Import ListNotations.
 
@@ -72,3 +73,28 @@ Example c07_example :
   map members (grouping [[(0%nat, PX); (1%nat, PY)]; [(0%nat, PZ)]; [(1%nat, PY); (2%nat, PZ)]; [(0%nat, PZ); (2%nat, PX)]])
   = [[[(0%nat, PX); (1%nat, PY)]; [(1%nat, PY); (2%nat, PZ)]]; [[(0%nat, PZ)]; [(0%nat, PZ); (2%nat, PX)]]].
 Proof. vm_compute. reflexivity. Qed.
+
+(* ------------------------------------------------------------------ from outcome statistics to expectation values *)
+(* every rotation gate of the regenerated table is unitary (checked entry-wise in Z[w]) *)
+Theorem measurement_rotations_are_unitary : forallb (fun p => forallb unitb (meas_rot p)) all_pauli = true.
+Proof. vm_compute. reflexivity. Qed.
+
+(* under the exact outcome distribution |<b|V psi>|^2 of the measured state, the mean of the eigenvalue
+   (-1)^(number of set outcome bits on the support of P) - what the reconstructor returns - is <psi|P|psi>: for every member
+   P of a qubit-wise commuting set, every state psi, registers Q of any size (ip Q is the inner product over the register) *)
+Theorem exact_outcome_distribution_gives_the_expectation_value :
+  forall m P Q psi b0, NoDup (keys m) -> NoDup (keys P) -> sub_label P m -> NoDup Q -> incl (keys m) Q ->
+  asum Q (fun b => Cmul (zsign P b) (RtoC (Cnorm2 (csem (V meas_rot m) psi b)))) b0 = ip Q psi (lsemL P psi) b0.
+Proof.
+  intros. apply (exact_distribution_mean_is_expectation meas_rot measurement_rotations_ok measurement_rotations_are_unitary); assumption.
+Qed.
+Print Assumptions exact_outcome_distribution_gives_the_expectation_value.
+
+(* the measurement circuit is an isometry: the outcome distribution of a normalised state sums to 1 *)
+Theorem measured_state_keeps_its_norm :
+  forall m Q psi b0, NoDup Q -> incl (keys m) Q ->
+  ip Q (csem (V meas_rot m) psi) (csem (V meas_rot m) psi) b0 = ip Q psi psi b0.
+Proof.
+  intros m Q psi b0 HQ Hin. apply ip_iso; [exact HQ|].
+  apply (V_iso meas_rot measurement_rotations_are_unitary Q m Hin).
+Qed.
